@@ -98,7 +98,10 @@ impl<T: Write + Seek> ShapeWriter<T> {
         match (self.header.shape_type, S::shapetype()) {
             // This is the first call to write shape, we shall write the header
             // to reserve it space in the file.
-            (ShapeType::NullShape, t) => {
+            // (Only the first call: a first shape whose own type is NullShape
+            // leaves the header type unchanged, it must not make the next write
+            // look like a first one again.)
+            (ShapeType::NullShape, t) if self.rec_num == 1 => {
                 self.header.shape_type = t;
                 self.header.bbox = BBoxZ {
                     max: PointZ::new(
